@@ -13,6 +13,10 @@ type IndividualNode struct {
 	families                      FamilyNodes
 	spouses                       []*IndividualNode
 	cachedUniqueIDs               *StringSet
+
+	// The cached values above are only valid while these are the current
+	// cache generation, see invalidateCaches.
+	familiesGeneration, spousesGeneration, uniqueIDsGeneration int64
 }
 
 // SpouseChildren connects a single spouse to a set of children. The children
@@ -28,7 +32,7 @@ type SpouseChildren map[*IndividualNode]ChildNodes
 func newIndividualNode(document *Document, pointer string, children ...Node) *IndividualNode {
 	return &IndividualNode{
 		newSimpleDocumentNode(document, TagIndividual, "", pointer, children...),
-		false, false, nil, nil, nil,
+		false, false, nil, nil, nil, 0, 0, 0,
 	}
 }
 
@@ -82,13 +86,15 @@ func (node *IndividualNode) Spouses() (spouses IndividualNodes) {
 		return nil
 	}
 
-	if node.cachedSpouses {
+	generation := currentCacheGeneration()
+	if node.cachedSpouses && node.spousesGeneration == generation {
 		return node.spouses
 	}
 
 	defer func() {
 		node.spouses = spouses
 		node.cachedSpouses = true
+		node.spousesGeneration = generation
 	}()
 
 	spouses = IndividualNodes{}
@@ -123,13 +129,15 @@ func (node *IndividualNode) Families() (families FamilyNodes) {
 		return nil
 	}
 
-	if node.cachedFamilies {
+	generation := currentCacheGeneration()
+	if node.cachedFamilies && node.familiesGeneration == generation {
 		return node.families
 	}
 
 	defer func() {
 		node.families = families
 		node.cachedFamilies = true
+		node.familiesGeneration = generation
 	}()
 
 	families = FamilyNodes{}
@@ -854,8 +862,10 @@ func (node *IndividualNode) UniqueIDs() (nodes []*UniqueIDNode) {
 // commonly unique identifiers such as the FamilySearch ID or UUID generated by
 // some applications.
 func (node *IndividualNode) UniqueIdentifiers() *StringSet {
-	if node.cachedUniqueIDs == nil {
+	generation := currentCacheGeneration()
+	if node.cachedUniqueIDs == nil || node.uniqueIDsGeneration != generation {
 		node.cachedUniqueIDs = NewStringSet()
+		node.uniqueIDsGeneration = generation
 
 		for _, id := range node.UniqueIDs() {
 			if uuid, err := id.UUID(); err == nil {
